@@ -361,6 +361,8 @@ Proof.
   - now left.
   - now left.
   - now left.
+  - now left.
+  - now left.
 Qed.
 
 Lemma let_pair_some {S R} (X : S * R) (f : R -> bool) l' :
